@@ -7,13 +7,16 @@ def queries():
         src = ['tlx/digest/%s.cpp' % nm, 'tlx/string/hexdump.cpp']
         lenb = 16 if blk == 128 else 8
         edge = blk - lenb            # 56 / 112: first length that needs a second block is edge
-        ranges = [(0, 3, True), (edge - 2, edge + 1, True), (blk - 1, blk + 1, True), (4, 12, False), (edge - 8, edge - 3, False), (edge + 2, blk - 2, False),
-                  (blk + 2, blk + 8, False), (blk + edge - 2, blk + edge + 1, False), (2 * blk - 1, 2 * blk + 2, False)]
+        if blk == 128:   # SHA-512: 128-byte blocks make every run ~4x larger; one or two lengths per query (measured: 3 lengths at 127..129 = 19 M variables)
+            ranges = [(0, 3, True), (edge - 1, edge, True), (blk - 1, blk, True), (edge - 2, edge - 2, False), (edge + 1, edge + 1, False), (blk + 1, blk + 1, False), (4, 8, False), (blk + edge - 1, blk + edge, False)]
+        else:
+          ranges = [(0, 3, True), (edge - 2, edge + 1, True), (blk - 1, blk + 1, True), (4, 12, False), (edge - 8, edge - 3, False), (edge + 2, blk - 2, False),
+                    (blk + 2, blk + 8, False), (blk + edge - 2, blk + edge + 1, False), (2 * blk - 1, 2 * blk + 2, False)]
         for lo, hi, quick in ranges:
             qs.append(Query('%s_chunk_n%d_%d' % (nm, lo, hi), 'C14_digest.cpp', 'h_chunking',
                             '%s: every message length %d..%d, every split into two process() calls, all byte values; compression function = recorder' % (nm.upper(), lo, hi),
                             defs=['ALGO=%d' % a, 'NMIN=%d' % lo, 'NMAX=%d' % hi, 'TLX_VERIF_DIGEST_HOOK'], link=src, ll2c=['--alloc-cap', '256'],
-                            tiers=('quick', 'thorough') if quick else ('thorough',), timeout=1200 if quick else 3600, unwind=4, max_unwind=300, weight=hi))
+                            tiers=('quick', 'thorough') if quick else ('thorough',), timeout=1800 if quick else 7200, unwind=4, max_unwind=700, weight=hi))
         qs.append(Query('%s_chunk3_n%d_%d' % (nm, edge - 1, edge), 'C14_digest.cpp', 'h_chunking', '%s: lengths %d..%d, every split into three process() calls' % (nm.upper(), edge - 1, edge),
                         defs=['ALGO=%d' % a, 'NMIN=%d' % (edge - 1), 'NMAX=%d' % edge, 'TRIPLE', 'TLX_VERIF_DIGEST_HOOK'], link=src, ll2c=['--alloc-cap', '256'], tiers=('thorough',), timeout=3600, unwind=4, max_unwind=300))
         qs.append(Query('%s_hexforms' % nm, 'C14_digest.cpp', 'h_hexforms', '%s: digest(), digest_hex(), digest_hex_uc(), %s_hex(), %s_hex_uc() serialise the final state; message length 5' % (nm.upper(), nm, nm),
@@ -24,7 +27,7 @@ def queries():
         for off in ((0, 3) if ln in (7, 8, 9, 16) else (0,)):
             quick = ln in (0, 1, 7, 8, 9, 15, 16) and off == 0 or (ln == 9 and off == 3)
             qs.append(Query('siphash_len%d_off%d' % (ln, off), 'C14_siphash.cpp', 'h_siphash', 'siphash_plain, siphash_sse2, siphash() vs SipHash-2-4 reference: all 128-bit keys, message length %d, start offset %d mod 8, all byte values' % (ln, off),
-                            defs=['LEN=%d' % ln, 'OFF=%d' % off], extra_c=['C14_sipref.c'], native_extra=[ref], tiers=('quick', 'thorough') if quick else ('thorough',), timeout=1800, unwind=10, weight=ln))
+                            defs=['LEN=%d' % ln, 'OFF=%d' % off], extra_c=['C14_sipref.c'], native_extra=[ref], solver=['--external-sat-solver', 'kissat'], tiers=('quick', 'thorough') if quick else ('thorough',), timeout=1800, unwind=10, weight=ln))
     return qs
 
 ASSUMPTIONS = ['obligation 1 replaces the compression function by a recorder through the guarded hook TLX_VERIF_DIGEST_HOOK (fresh symbolic output state per call): it decides buffering, padding, chaining and serialisation for every chunking, not the round function',
